@@ -19,8 +19,26 @@ package ipk
 //@   ensures [C07] no-env: !ghostFlag("envRead")
 //@   modifies [C11 C12] &info.Arch, &info.Contents, &info.Priority, &info.Maintainer, mapof(info.IPK.Fields)
 //
+//@ spec func fileSize(c *files.Content) int64 {
+//@     switch c.Type {
+//@     case "file", "tree", "config", "config|noreplace", "config|missingok":
+//@         return int64(len(fsContent(c.Source)))
+//@     }
+//@     return 0
+//@ }
+//
+//@ spec func payloadSize(cs files.Contents, n int) int64 {
+//@     return foldInt(n, func(i int) int64 { return fileSize(cs[i]) })
+//@ }
+//
 //@ inline func populateDataTar(info *nfpm.Info, tw *tar.Writer) (instSize int64, err error)
-//@   loop 0
+//@   requires [C03] info != nil && tw != nil && files.SpecContentsNonNil(info.Contents)
+//@   requires nfpm.SpecPlanOK(info.Contents, !info.MTime.IsZero())
+//@   requires !ghostFlag("failed") && !ghostFlag("clockRead") && !ghostFlag("envRead")
+//@   ensures [C03] installed-size-is-the-payload-size: implies(err == nil, instSize == payloadSize(info.Contents, len(info.Contents)))
+//@   loop 0 (iter int, instSize int64)
+//@     invariant [C03] size-so-far: instSize == payloadSize(info.Contents, iter)
+//@     invariant [C03] index-in-range: 0 <= iter && iter <= len(info.Contents)
 //@     invariant [C06] no-failure-so-far: !ghostFlag("failed")
 //@     invariant [C07] no-clock-so-far: implies(!old(info.MTime.IsZero()), !ghostFlag("clockRead"))
 //@     invariant [C07 C11 C12] plan-still-fresh: nfpm.SpecPlanOK(info.Contents, !old(info.MTime.IsZero()))
